@@ -122,6 +122,7 @@ type groundTruth struct {
 	modes          []gtModeChange
 	reloads        []time.Duration // reloads and restarts
 	horizon        time.Duration
+	inhibitedBy    map[string][]string // target alert -> source alerts (same equal labels) per the configured rule
 }
 
 func newGT(rt time.Duration) *groundTruth {
@@ -184,8 +185,36 @@ func (g *groundTruth) silenced(name string) spans {
 	return out
 }
 
+func (g *groundTruth) inhibited(name string) spans {
+	var out spans
+	for _, src := range g.inhibitedBy[name] {
+		out = out.union(g.firing(src))
+	}
+	return out
+}
+
 func (g *groundTruth) eligible(name string) spans {
-	return g.firing(name).intersect(g.silenced(name).complement(g.horizon))
+	return g.firing(name).intersect(g.silenced(name).complement(g.horizon)).intersect(g.inhibited(name).complement(g.horizon))
+}
+
+// monitorSuppressed (C02 / C03): no notification lists, as firing, an alert that at the flush tick had been matched by an
+// active silence (created at least 5ms before the tick) or inhibited by a source firing since at least 5ms before the tick.
+func monitorSuppressed(g *groundTruth, attempts []fAttempt) *violation {
+	const eps = 5 * time.Millisecond
+	for _, at := range attempts {
+		for _, x := range at.Alerts {
+			if !x.Firing {
+				continue
+			}
+			if s := g.silenced(x.Name); s.contains(at.Tick) && s.contains(at.Tick-eps) {
+				return &violation{"silenced-alert-notified", fmt.Sprintf("%s (flush tick %v) lists %s, which is matched by an active silence during %v", at.String(), at.Tick, x.Name, s)}
+			}
+			if s := g.inhibited(x.Name); s.contains(at.Tick) && s.contains(at.Tick-eps) {
+				return &violation{"inhibited-alert-notified", fmt.Sprintf("%s (flush tick %v) lists %s, which is inhibited by a source firing during %v", at.String(), at.Tick, x.Name, s)}
+			}
+		}
+	}
+	return nil
 }
 
 // accepting: intervals in which the integration answers ok (possibly after hanging).
